@@ -784,7 +784,7 @@ Proof.
 Qed.
 
 (* ---- the table of an opened stream ----------------------------------------------------- *)
-Definition zr0 : zrd := mkZr [] 0 None 0 false.
+Definition zr0 : zrd := mkZr [] 0 None 0 false false.
 
 Lemma chain_nonfooter data T : forall prev,
   chainP (Pw0 data) prev T -> Forall (fun r => RType r <> footerType) T.
@@ -938,7 +938,7 @@ Record St (s : xr) (k : Z) (m : nat) : Prop := mkSt {
   st_chk : r_chk s = (CompOffset (cu T k) - CompOffset (pv T k),
                       RawOffset (cu T k) - RawOffset (pv T k), RType (cu T k));
   st_zr : r_zr s = mkZr (skipn m (outk k)) (N.of_nat m) (z_end (zrk k)) (z_used (zrk k))
-                        (z_sync_ok (zrk k));
+                        (z_sync_ok (zrk k)) (z_joined (zrk k));
   st_m : (m <= length (outk k))%nat;
   st_err : r_err s = None
 }.
@@ -965,40 +965,47 @@ Proof.
   destruct H as [H|[H|H]]; rewrite H; discriminate.
 Qed.
 
-(* deliver what is left of the chunk *)
+(* deliver what is left of the chunk; if the decompressor returns its status together with
+   the last bytes (z_joined) the end of the chunk is evaluated in the same iteration *)
 Lemma drain_chunk : forall fuel s k m n acc,
   St s k m -> is_eeof (read_loop fuel s n acc) ->
-  exists fuel' s', (fuel' <= fuel)%nat /\ St s' k (length (outk k)) /\
+  (exists fuel' s', (fuel' <= fuel)%nat /\ St s' k (length (outk k)) /\
     read_loop fuel' s' (n - N.of_nat (length (outk k) - m)) (acc ++ skipn m (outk k))
-    = read_loop fuel s n acc.
+    = read_loop fuel s n acc) \/
+  (exists fuel' s', (fuel' < fuel)%nat /\ St s' k (length (outk k)) /\ z_end (zrk k) = None /\
+    read_loop fuel' (chunk_end s') (n - N.of_nat (length (outk k) - m)) (acc ++ skipn m (outk k))
+    = read_loop fuel s n acc).
 Proof.
   intros fuel s k m n acc C Hr.
   destruct (Nat.eq_dec m (length (outk k))) as [->|Hm].
-  - exists fuel, s. split; [lia|]. split; [exact C|].
+  - left. exists fuel, s. split; [lia|]. split; [exact C|].
     rewrite Nat.sub_diag, N.sub_0_r, skipn_all, app_nil_r. reflexivity.
   - pose proof (st_m _ _ _ C) as Hle.
     destruct fuel as [|f]; [unfold is_eeof in Hr; cbn in Hr; discriminate|].
-    cbn [read_loop] in Hr |- *. rewrite (st_err _ _ _ C) in Hr |- *.
-    destruct (n =? 0)%N eqn:En; [unfold is_eeof in Hr; cbn in Hr; discriminate|].
-    rewrite (st_disc _ _ _ C) in Hr |- *. cbn [Z.ltb Z.compare] in Hr |- *.
+    destruct (n =? 0)%N eqn:En.
+    { cbn [read_loop] in Hr. rewrite (st_err _ _ _ C), En in Hr. unfold is_eeof in Hr; cbn in Hr; discriminate. }
+    apply N.eqb_neq in En.
     assert (Hne : z_rest (r_zr s) <> []).
     { rewrite (st_zr _ _ _ C). cbn [z_rest]. intros E.
       apply (f_equal (@length byte)) in E. rewrite skipn_length in E. cbn [length] in E. lia. }
-    rewrite (zr_read_cons _ _ Hne) in Hr |- *.
+    assert (Hd : (r_discard s <= 0)%Z) by (rewrite (st_disc _ _ _ C); lia).
+    rewrite (read_loop_data_step f s n acc (st_err _ _ _ C) En Hd Hne) in Hr |- *. cbv zeta in Hr |- *.
     set (chunk := firstn (N.to_nat n) (z_rest (r_zr s))) in *.
-    match type of Hr with is_eeof (read_loop f ?s1 _ _) => set (s' := s1) in * end.
+    set (s' := data_state s n) in *.
     assert (Hrest : z_rest (r_zr s) = skipn m (outk k)) by (rewrite (st_zr _ _ _ C); reflexivity).
     (* the next iteration must still want bytes *)
     assert (Hn' : (n - N.of_nat (length chunk) <> 0)%N).
-    { intros E0. destruct f as [|f']; [unfold is_eeof in Hr; cbn in Hr; discriminate|].
-      cbn [read_loop] in Hr. unfold s' in Hr at 1. cbn [r_err] in Hr.
-      rewrite E0 in Hr. cbn [N.eqb] in Hr. unfold is_eeof in Hr. cbn in Hr. discriminate. }
+    { intros E0. rewrite E0 in Hr. cbn [N.eqb] in Hr.
+      destruct (zr_status_now (r_zr s')); [unfold is_eeof in Hr; cbn in Hr; discriminate|].
+      destruct f as [|f']; [unfold is_eeof in Hr; cbn in Hr; discriminate|].
+      cbn [read_loop] in Hr. unfold s' in Hr at 1. cbn [data_state r_err] in Hr.
+      cbn [N.eqb] in Hr. unfold is_eeof in Hr. cbn in Hr. discriminate. }
     assert (Hall : chunk = skipn m (outk k)).
     { unfold chunk. rewrite Hrest. apply firstn_all2.
       unfold chunk in Hn'. rewrite Hrest, firstn_length in Hn'. lia. }
     assert (Hcl : length chunk = (length (outk k) - m)%nat) by (rewrite Hall, skipn_length; reflexivity).
-    exists f, s'. split; [lia|]. split.
-    + unfold s'.
+    assert (Cs' : St s' k (length (outk k))).
+    { unfold s', data_state. fold chunk.
       constructor; cbn [r_data r_recs r_ri r_offset r_discard r_chk r_zr r_err].
       * exact (st_data _ _ _ C).
       * exact (st_recs _ _ _ C).
@@ -1006,40 +1013,37 @@ Proof.
       * rewrite (st_off _ _ _ C), Hcl. unfold zN. lia.
       * reflexivity.
       * exact (st_chk _ _ _ C).
-      * rewrite (st_zr _ _ _ C). cbn [z_rest z_outoff z_end z_used z_sync_ok].
+      * rewrite (st_zr _ _ _ C). cbn [z_rest z_outoff z_end z_used z_sync_ok z_joined].
+        fold chunk. rewrite <- Hrest. fold chunk. rewrite Hrest.
         rewrite skipn_all, Hcl.
         rewrite (skipn_all2 (skipn m (outk k))) by (rewrite skipn_length; lia).
         f_equal. lia.
       * apply le_n.
-      * reflexivity.
-    + rewrite Hcl, Hall. reflexivity.
+      * reflexivity. }
+    destruct (zr_status_now (r_zr s')) eqn:Ej.
+    + replace (n - N.of_nat (length chunk) =? 0)%N with false in Hr |- * by (symmetry; apply N.eqb_neq; exact Hn').
+      assert (Hze : z_end (r_zr s) = z_end (zrk k)) by (rewrite (st_zr _ _ _ C); reflexivity).
+      rewrite Hze in Hr |- *.
+      destruct (z_end (zrk k)) as [e|] eqn:Eend.
+      { exfalso. revert Hr. apply read_loop_stuck with (e := e); [reflexivity|].
+        intros ->. apply (zrk_end_not_eeof k). exact Eend. }
+      right. exists f, s'. split; [lia|]. split; [exact Cs'|]. split; [reflexivity|].
+      rewrite Hcl, Hall. reflexivity.
+    + left. exists f, s'. split; [lia|]. split; [exact Cs'|].
+      rewrite Hcl, Hall. reflexivity.
 Qed.
 
 Lemma spos_abs s pos : spos s pos 0 = Some pos.
 Proof. reflexivity. Qed.
 
-(* the chunk is exhausted: verification, then the next record *)
-Lemma finish_chunk : forall fuel s k n acc,
-  0 <= k < LL -> St s k (length (outk k)) -> is_eeof (read_loop fuel s n acc) ->
-  z_end (zrk k) = None /\
+(* the end of a chunk that has been delivered entirely: verification, then the next record *)
+Lemma chunk_end_next : forall fuel s k n acc,
+  0 <= k < LL -> St s k (length (outk k)) -> z_end (zrk k) = None ->
+  is_eeof (read_loop fuel (chunk_end s) n acc) ->
   Z.of_nat (length (outk k)) = RawOffset (cu T k) - RawOffset (pv T k) /\
-  exists fuel' s', (fuel' < fuel)%nat /\ read_loop fuel' s' n acc = read_loop fuel s n acc /\
-    (k + 1 < LL -> St s' (k + 1) 0) /\ (k + 1 = LL -> r_err s' = Some EEOF).
+  (k + 1 < LL -> St (chunk_end s) (k + 1) 0) /\ (k + 1 = LL -> r_err (chunk_end s) = Some EEOF).
 Proof.
-  intros fuel s k n acc Hk C Hr.
-  destruct fuel as [|f]; [unfold is_eeof in Hr; cbn in Hr; discriminate|].
-  cbn [read_loop] in Hr |- *. rewrite (st_err _ _ _ C) in Hr |- *.
-  destruct (n =? 0)%N eqn:En; [unfold is_eeof in Hr; cbn in Hr; discriminate|].
-  rewrite (st_disc _ _ _ C) in Hr |- *. cbn [Z.ltb Z.compare] in Hr |- *.
-  assert (Hnil : z_rest (r_zr s) = []).
-  { rewrite (st_zr _ _ _ C). cbn [z_rest]. apply skipn_all. }
-  rewrite (zr_read_nil _ _ Hnil) in Hr |- *.
-  assert (Hze : z_end (r_zr s) = z_end (zrk k)) by (rewrite (st_zr _ _ _ C); reflexivity).
-  rewrite Hze in Hr |- *.
-  destruct (z_end (zrk k)) as [e|] eqn:Eend.
-  { exfalso. unfold is_eeof in Hr. cbn [fst snd] in Hr. inversion Hr; subst e.
-    apply (zrk_end_not_eeof k). exact Eend. }
-  split; [reflexivity|].
+  intros fuel s k n acc Hk C Eend Hr.
   (* chunk_end *)
   unfold chunk_end, chk_typ, chk_csize, chk_rsize in Hr |- *.
   rewrite (st_chk _ _ _ C) in Hr |- *. cbn [fst snd] in Hr |- *.
@@ -1100,13 +1104,13 @@ Proof.
   - (* the last record: io.EOF *)
     assert (Hu : RType (cu T (k + 1)) = unknownType) by (rewrite E; apply typ_L).
     rewrite Hu in Hr |- *. cbn [Z.eqb unknownType] in Hr |- *.
-    eexists f, _. split; [lia|]. split; [reflexivity|]. split; [intros; lia|].
+    split; [intros; lia|].
     intros _. reflexivity.
   - assert (Hk1 : 0 <= k + 1 < LL) by lia.
     pose proof (typ_known (k + 1) Hk1) as Htk.
     replace (RType (cu T (k + 1)) =? unknownType) with false in Hr |- *
       by (symmetry; apply Z.eqb_neq; exact Htk).
-    exists f, s1. split; [lia|]. split; [reflexivity|]. split; [|intros; lia].
+    split; [|intros; lia].
     intros _. rewrite Hs1.
     constructor; cbn [r_data r_recs r_ri r_offset r_discard r_chk r_zr r_err].
     + reflexivity.
@@ -1118,6 +1122,34 @@ Proof.
     + cbn [skipn]. unfold outk, zrk, open_chunk. reflexivity.
     + lia.
     + reflexivity.
+Qed.
+
+
+(* the chunk is exhausted: verification, then the next record *)
+Lemma finish_chunk : forall fuel s k n acc,
+  0 <= k < LL -> St s k (length (outk k)) -> is_eeof (read_loop fuel s n acc) ->
+  z_end (zrk k) = None /\
+  Z.of_nat (length (outk k)) = RawOffset (cu T k) - RawOffset (pv T k) /\
+  exists fuel' s', (fuel' < fuel)%nat /\ read_loop fuel' s' n acc = read_loop fuel s n acc /\
+    (k + 1 < LL -> St s' (k + 1) 0) /\ (k + 1 = LL -> r_err s' = Some EEOF).
+Proof.
+  intros fuel s k n acc Hk C Hr.
+  destruct fuel as [|f]; [unfold is_eeof in Hr; cbn in Hr; discriminate|].
+  cbn [read_loop] in Hr |- *. rewrite (st_err _ _ _ C) in Hr |- *.
+  destruct (n =? 0)%N eqn:En; [unfold is_eeof in Hr; cbn in Hr; discriminate|].
+  rewrite (st_disc _ _ _ C) in Hr |- *. cbn [Z.ltb Z.compare] in Hr |- *.
+  assert (Hnil : z_rest (r_zr s) = []).
+  { rewrite (st_zr _ _ _ C). cbn [z_rest]. apply skipn_all. }
+  rewrite (zr_read_nil _ _ Hnil) in Hr |- *.
+  assert (Hze : z_end (r_zr s) = z_end (zrk k)) by (rewrite (st_zr _ _ _ C); reflexivity).
+  rewrite Hze in Hr |- *.
+  destruct (z_end (zrk k)) as [e|] eqn:Eend.
+  { exfalso. unfold is_eeof in Hr. cbn [fst snd] in Hr. inversion Hr; subst e.
+    apply (zrk_end_not_eeof k). exact Eend. }
+  split; [reflexivity|].
+  destruct (chunk_end_next f s k n acc Hk C Eend Hr) as [Z2 [N1 N2]].
+  split; [exact Z2|].
+  exists f, (chunk_end s). split; [lia|]. split; [reflexivity|]. split; assumption.
 Qed.
 
 (* the concatenated outputs of [j] consecutive chunks starting with chunk [k] *)
@@ -1135,9 +1167,19 @@ Proof.
   induction j as [|j IH]; intros fuel s k n acc Hj Hk0 C Hr.
   - exfalso. lia.
   - assert (Hk : 0 <= k < LL) by lia.
-    destruct (drain_chunk fuel s k 0 n acc C Hr) as [f1 [s1 [_ [C1 E1]]]].
-    rewrite <- E1 in Hr |- *. rewrite Nat.sub_0_r in *. cbn [skipn] in *.
-    destruct (finish_chunk f1 s1 k _ _ Hk C1 Hr) as [Z1 [Z2 [f2 [s2 [_ [E2 [N1 N2]]]]]]].
+    assert (Hpass : z_end (zrk k) = None /\
+              exists f2 s2,
+                read_loop f2 s2 (n - N.of_nat (length (outk k))) (acc ++ outk k) = read_loop fuel s n acc /\
+                (k + 1 < LL -> St s2 (k + 1) 0) /\ (k + 1 = LL -> r_err s2 = Some EEOF)).
+    { destruct (drain_chunk fuel s k 0 n acc C Hr) as [[f1 [s1 [_ [C1 E1]]]]|[f1 [s1 [_ [C1 [Z1 E1]]]]]];
+        rewrite Nat.sub_0_r in E1; cbn [skipn] in E1.
+      - rewrite <- E1 in Hr.
+        destruct (finish_chunk f1 s1 k _ _ Hk C1 Hr) as [Z1 [Z2 [f2 [s2 [_ [E2 [N1 N2]]]]]]].
+        split; [exact Z1|]. exists f2, s2. split; [rewrite E2; exact E1|]. split; assumption.
+      - rewrite <- E1 in Hr.
+        destruct (chunk_end_next f1 s1 k _ _ Hk C1 Z1 Hr) as [Z2 [N1 N2]].
+        split; [exact Z1|]. exists f1, (chunk_end s1). split; [exact E1|]. split; assumption. }
+    destruct Hpass as [Z1 [f2 [s2 [E2 [N1 N2]]]]].
     rewrite <- E2 in Hr |- *.
     destruct (Z.eq_dec (k + 1) LL) as [E|E].
     + specialize (N2 E).
